@@ -448,6 +448,14 @@ public:
       sandbox_list.erase(el_ref);
     }
 
+    {
+      // Symbol addresses belong to this incarnation of the sandbox; a sandbox
+      // created again on this object may be bound to a different library
+      RLBOX_ACQUIRE_UNIQUE_GUARD(lock, func_ptr_cache_lock);
+      func_ptr_map.clear();
+      internal_func_ptr_map.clear();
+    }
+
     sandbox_created.store(Sandbox_Status::NOT_CREATED);
     return this->impl_destroy_sandbox();
   }
